@@ -252,7 +252,9 @@ func (o OneOfSchema[KeyType]) validateSchema(otherSchema OneOfSchema[KeyType]) e
 	return nil
 }
 
-func (o OneOfSchema[KeyType]) validateMap(data map[string]any) (KeyType, Object, error) {
+// selectMember finds the member a map value is routed to by its discriminator (Validate and Serialize
+// dispatch with it; the data-mode compatibility rules stay with validateMap).
+func (o OneOfSchema[KeyType]) selectMember(data map[string]any) (KeyType, Object, error) {
 	var nilKey KeyType
 	// Validate that it has the discriminator field.
 	// If it doesn't, fail
@@ -282,10 +284,20 @@ func (o OneOfSchema[KeyType]) validateMap(data map[string]any) (KeyType, Object,
 				selectedTypeIDAsserted, o.getTypeValues()),
 		}
 	}
+	return selectedTypeIDAsserted, selectedSchema, nil
+}
+
+func (o OneOfSchema[KeyType]) validateMap(data map[string]any) (KeyType, Object, error) {
+	var nilKey KeyType
+	selectedTypeIDAsserted, selectedSchema, err := o.selectMember(data)
+	if err != nil {
+		return nilKey, nil, err
+	}
 	cloneData := o.deleteDiscriminator(data)
-	err := selectedSchema.ValidateCompatibility(cloneData)
+	err = selectedSchema.ValidateCompatibility(cloneData)
 	if err != nil {
 		return nilKey, nil, &ConstraintError{
+			Path: constraintErrorPath(err),
 			Message: fmt.Sprintf(
 				"validation failed for OneOfSchema. Failed to validate as selected schema type '%T' from discriminator value '%v' (%s)",
 				selectedSchema, selectedTypeIDAsserted, err),
@@ -379,7 +391,7 @@ func (o OneOfSchema[KeyType]) findUnderlyingType(data any) (KeyType, Object, err
 				Message: fmt.Sprintf("Invalid type for one-of type: %T expected map[string]any.", data),
 			}
 		}
-		myKey, mySchemaObj, err := o.validateMap(dataMap)
+		myKey, mySchemaObj, err := o.selectMember(dataMap)
 		if err != nil {
 			return nilKey, nil, err
 		}
